@@ -120,8 +120,9 @@ def op_open_pr(w, op):
                      check=False)
     if rc != 0:
         return
+    shas = []
     for i in range(op.get('ncommits', 1)):
-        commit_kind(w, op.get('kind', 'new'), actor)
+        shas.append(commit_kind(w, op.get('kind', 'new'), actor))
     rc, out = w.ugit('push', '-q', 'origin', src, actor=actor, check=False)
     if rc != 0:
         return
@@ -129,6 +130,8 @@ def op_open_pr(w, op):
         title=op.get('title', 'PR %s' % src), name='name', src_branch=src,
         dst_branch=dst, close_source_branch=True, description='')
     w.user_prs.append(pr.id)
+    w.src_commits = getattr(w, 'src_commits', {})
+    w.src_commits[pr.id] = shas
     w.events.append({'k': 'pr', 'id': pr.id, 'why': 'opened'})
 
 
@@ -147,6 +150,14 @@ def _src_op(w, op, fn, force=False):
     rc, _ = w.ugit(*args, 'origin', pr.src_branch, actor=actor, check=False)
     if rc == 0:
         w.events.append({'k': 'pr', 'id': pr.id, 'why': op['op']})
+        # remember every commit that has been on this source branch
+        known = getattr(w, 'src_commits', {}).setdefault(pr.id, [])
+        if pr.dst_branch in w.heads():
+            out = w.ugit('rev-list', '--no-merges', 'HEAD',
+                         '^origin/' + pr.dst_branch)[1]
+            for sha in out.split():
+                if sha not in known:
+                    known.append(sha)
 
 
 def op_commit(w, op):
@@ -682,7 +693,7 @@ class Gen:
                 return None
             op = {'op': kind, 'p': p}
             if kind == 'commit':
-                op['kind'] = rng.choice(['new', 'new', 'shared', 'ver'])
+                op['kind'] = rng.choice(['new'] * 6 + ['shared', 'ver'])
             return op
         if kind in ('approve', 'request_changes', 'dismiss',
                     'comment_review'):
@@ -720,7 +731,7 @@ class Gen:
         return {'op': 'open_pr', 'actor': rng.choice(['alice', 'bob']),
                 'src': gen_src_name(rng, self.nsrc, self.adversarial),
                 'dst': rng.choice(sorted(dests)),
-                'kind': rng.choice(['new', 'new', 'new', 'shared', 'ver']),
+                'kind': rng.choice(['new'] * 8 + ['shared', 'ver']),
                 'from': rng.choice(['tip', 'tip', 'old']),
                 'ncommits': rng.choice([1, 1, 2])}
 
@@ -761,14 +772,23 @@ class Gen:
 
     def g_ci(self, w):
         rng = self.rng
-        p = self.pick_pr(w)
         choices = []
-        if p is not None:
-            choices += [['src', p], ['w', p, rng.randrange(4)],
-                        ['w', p, rng.randrange(4)],
-                        ['qw', p, rng.randrange(4)],
-                        ['qw', p, rng.randrange(4)]]
-        choices += [['q', rng.randrange(4)], ['stale', rng.randrange(8)]]
+        for i, pid in enumerate(w.user_prs):
+            pr = w.host_pr(pid)
+            if pr is None or pr.status != 'OPEN':
+                continue
+            choices.append(['src', i])
+            for vi in range(len(wbranches_of(w, pr))):
+                choices.append(['w', i, vi])
+            for vi in range(len(qwbranches_of(w, pr))):
+                choices.append(['qw', i, vi])
+                choices.append(['qw', i, vi])
+        for vi in range(len(qbranches(w))):
+            choices.append(['q', vi])
+        if w.robot_tips and rng.random() < 0.15:
+            choices = [['stale', rng.randrange(8)]]
+        if not choices:
+            return None
         target = rng.choice(choices)
         state = 'SUCCESSFUL' if rng.random() < self.ci_green_bias \
             else rng.choice(self.ci_states)
